@@ -4,6 +4,8 @@ Stages: proofs (Properties_C17.v) -> correspondence of the Coq model (vm_compute
   get_strategies_from_examples + generate_one, case by case, with OBJECT IDENTITIES (heap model, section 6 below)
   produce_combinations / _produce_parameter_combinations        (exact equality, dict order included)
   _expand_subschemas, extract_inner_examples, extract_from_schema (exact equality on generated schema fragments)
+  extract_top_level on whole nodes (parameter / media type / 2.0 body parameter object + schema; 2.0 nodes with BOTH x-example and
+  example) vs Model_C17.node_values
   get_parameters_strategy(exclude=...) + get_parameters_value    (fake strategy factory: the foreign generator is an argument)
   add_examples                                                   (stub operation raising each exception class / bad headers)
 -> oracle search: generated OpenAPI 3.0 / 2.0 documents with examples at every placement, run through the real engine
@@ -476,6 +478,123 @@ def stage_fragments(chk, n):
 
 
 # ----------------------------------------------------------------------------------------
+# 2a. extract_top_level on WHOLE nodes (parameter object / media type object / 2.0 body parameter object + its schema)
+# ----------------------------------------------------------------------------------------
+def gen_node(rng):
+    """(version, kind, node): a node with single examples under one or BOTH keywords (2.0), named examples, and a schema whose
+    top level and anyOf/oneOf/allOf branches again carry one or both keywords."""
+    version = 2 if rng.random() < 0.7 else 3
+    ef, esf = ("x-example", "x-examples") if version == 2 else ("example", "examples")
+    kind = rng.choice(["query", "header", "body"])
+
+    def singles(d, p_both):
+        r = rng.random()
+        if version == 2 and r < p_both:
+            pair = [("x-example", rand_json(rng, 1)), ("example", rand_json(rng, 1))]
+            if rng.random() < 0.5:
+                pair.reverse()
+            d.update(pair)
+        elif r < p_both + 0.2:
+            d[ef] = rand_json(rng, 1)
+        elif r < p_both + 0.35:
+            d["example"] = rand_json(rng, 1)
+
+    node = {}
+    singles(node, 0.5)
+    if rng.random() < 0.35:
+        node[esf] = {}
+        for nm in rng.sample(["a", "b", "c"], rng.choice([1, 2, 3])):
+            node[esf][nm] = rng.choice([{"value": rand_json(rng, 1)}, {"value": rand_json(rng, 1), "summary": "s"}, {"summary": "no value"}])
+    if kind == "body" or version == 3:
+        if rng.random() < 0.5:
+            schema = rand_subschema(rng, 1, (ef, esf))
+        else:
+            schema = {}
+            if rng.random() < 0.5:
+                schema["type"] = rng.choice(["string", "integer", "object"])
+        singles(schema, 0.45)
+        if rng.random() < 0.4:
+            key = rng.choice(["anyOf", "oneOf", "allOf"])
+            branches = []
+            for _ in range(rng.choice([1, 2, 3])):
+                b = {}
+                singles(b, 0.5)
+                if rng.random() < 0.25:
+                    b[esf] = [rand_json(rng, 1) for _ in range(rng.choice([1, 2]))]
+                branches.append(b)
+            schema[key] = branches
+        if rng.random() < 0.25:
+            schema[esf] = [rand_json(rng, 1) for _ in range(rng.choice([0, 1, 2]))]
+        node["schema"] = schema
+    elif rng.random() < 0.7:
+        node["type"] = rng.choice(["string", "integer"])
+    return version, kind, node
+
+
+def impl_node_values(version, kind, node):
+    """extract_top_level on a real operation whose only input is the node."""
+    import schemathesis
+    from schemathesis.specs.openapi.examples import extract_top_level
+
+    node = copy.deepcopy(node)
+    op = {"responses": {"200": {"description": "ok"}}}
+    if version == 2:
+        raw = {"swagger": "2.0", "info": {"title": "t", "version": "1"}, "paths": {"/f": {"post": op}}}
+        op["consumes"] = [J]
+        op["parameters"] = [{"name": "n", "in": kind, **({"required": True} if kind == "body" else {}), **node}]
+    else:
+        raw = {"openapi": "3.0.2", "info": {"title": "t", "version": "1"}, "paths": {"/f": {"post": op}}}
+        if kind == "body":
+            op["requestBody"] = {"required": True, "content": {J: node}}
+        else:
+            op["parameters"] = [{"name": "n", "in": kind, **node}]
+    try:
+        operation = schemathesis.openapi.from_dict(raw)["/f"]["POST"]
+        return ["ok", [canon(e.value) for e in extract_top_level(operation)]]
+    except RecursionError:
+        return ["raises", "RecursionError"]
+    except Exception as exc:  # noqa: BLE001
+        return ["raises", type(exc).__name__]
+
+
+def count_both(v) -> int:
+    if isinstance(v, dict):
+        return int("example" in v and "x-example" in v) + sum(count_both(x) for x in v.values())
+    if isinstance(v, list):
+        return sum(count_both(x) for x in v)
+    return 0
+
+
+def stage_nodes(chk, n):
+    rng = chk.rng
+    corpus = [json.loads(p.read_text()) for p in sorted((core.VERIF / "corpus" / "C17").glob("node_*.json"))]
+    nodes = [(c["version"], c["kind"], c["node"]) for c in corpus]
+    while len(nodes) < n + len(corpus):
+        c = gen_node(rng)
+        if not has_ref(c[2]):
+            nodes.append(c)
+    exprs = []
+    for version, kind, node in nodes:
+        efs, esf = ("[s_example; s_x_example]", "x-examples") if version == 2 else ("[s_example]", "examples")
+        unresolved = node.get(esf)
+        full = {"name": "n", "in": kind, **node} if not (version == 3 and kind == "body") else node
+        exprs.append(f"node_values {efs} {cstr(esf)} {cjson(full)} {cjson(unresolved)}")
+    model = coq_eval(exprs)
+    agree = both = 0
+    for (version, kind, node), m in zip(nodes, model):
+        impl, mod = impl_node_values(version, kind, node), model_values(m)
+        nb = count_both(node) if version == 2 else 0
+        both += nb > 0
+        chk.seen({"node": node, "version": version, "kind": kind}, impl[0] == "ok" and len(impl[1]) >= 2)
+        chk.count("node:" + ("raises" if impl[0] == "raises" else "2.0 with both keywords" if nb else f"{version}.0 one keyword per definition"))
+        if not same_outcome(impl, mod):
+            chk.disagree("extract_top_level (whole node: definition + expanded schema, every keyword) vs Model_C17.node_values", {"version": version, "kind": kind, "node": node}, impl, mod)
+        else:
+            agree += 1
+    chk.stages["correspondence_nodes"] = {"nodes": len(nodes), "agree": agree, "openapi2_nodes_with_both_keywords": both}
+
+
+# ----------------------------------------------------------------------------------------
 # 2b. _find_parameter_examples_definition: lookup by (name, location)
 # ----------------------------------------------------------------------------------------
 def gen_lookup_case(rng):
@@ -737,6 +856,8 @@ class Plan:
         self.twins = []  # values to hand out next for the current slot (pairwise == in Python, different JSON values)
         self.twin_mode = False
         self.twins_planted = 0
+        self.focus_both = False  # bias OpenAPI 2.0 placements towards nodes carrying BOTH x-example and example
+        self.both_planted = 0
 
     def start_slot(self, shape, prob=0.3):
         """With probability prob the next two example values of this slot are Python-equal twins."""
@@ -801,10 +922,28 @@ def place_param_examples(plan, rng, p, version, allow_findings):
     mode = rng.choice(["param_example", "param_examples", "schema_example", "schema_examples", "anyOf", "oneOf", "allOf", "mixed", "nested"] if version == 3 else ["param_example", "param_examples", "plain_example", "mixed2"])
     if mode == "nested" and not allow_findings:
         mode = "anyOf"
+    both_modes = ["both_keywords", "both_keywords", "both_plus_examples"]  # 2.0: x-example AND example on the same parameter object
+    if version == 2 and rng.random() < (0.75 if plan.focus_both else 0.3):
+        mode = rng.choice(both_modes)
     if plan.twin_mode:  # 0/false or 1/true for one parameter: a placement with at least two values, no type constraint
-        mode = rng.choice(["param_examples", "schema_examples", "anyOf", "oneOf", "allOf", "mixed"] if version == 3 else ["param_examples", "mixed2"])
+        mode = rng.choice(["param_examples", "schema_examples", "anyOf", "oneOf", "allOf", "mixed"] if version == 3 else ["param_examples", "mixed2", "both_keywords", "both_plus_examples"])
         kind, ty = "int", ({} if version == 3 else {"type": "integer"})
     schema = dict(ty)
+    if mode in both_modes:
+        # different values under the two keywords of ONE node, in either key order; both are declared examples
+        pair = [("x-example", plan.token(kind)), ("example", plan.token(kind))]
+        if rng.random() < 0.5:
+            pair.reverse()
+        for key, v in pair:
+            p[key] = v
+            out.append((v, None))
+        plan.both_planted += 1
+    if mode == "both_plus_examples":
+        p[esf] = {}
+        for i in range(plan.cnt((1, 2))):
+            v = plan.token(kind)
+            p[esf][f"e{i}"] = {"value": v}
+            out.append((v, None))
     if mode in ("param_example", "mixed", "mixed2"):
         v = plan.token(kind)
         p[ef] = v
@@ -881,9 +1020,62 @@ def place_body_examples(plan, rng, version, allow_findings):
     if version == 2:
         modes = [m for m in modes if m not in ("schema_examples", "props_anyOf", "branches", "nested", "props_in_branch", "alt_direct_nested", "two_level_in_branch")]
     mode = rng.choice(modes)
+    # 2.0: x-example AND example (different values) on the body parameter object / the body schema / anyOf-oneOf branches of it /
+    # a property, next to x-examples
+    both_modes = ["mt_both", "schema_both", "mt_and_schema_both", "mt_both_examples", "props_both", "branch_both"]
+    if version == 2 and rng.random() < (0.75 if plan.focus_both else 0.3):
+        mode = rng.choice(both_modes)
     if plan.twin_mode:
-        mode = rng.choice(["mt_examples", "schema_examples", "branches", "allOf", "mixed", "props"] if version == 3 else ["mt_examples", "mixed", "props"])
+        mode = rng.choice(["mt_examples", "schema_examples", "branches", "allOf", "mixed", "props"] if version == 3 else ["mt_examples", "mixed", "props", "mt_both", "schema_both"])
     schema = {"type": "object"}
+
+    def plant_both(node, path=(), scalar=False):
+        pair = [("x-example", plan.token() if scalar else plan.body_value()), ("example", plan.token() if scalar else plan.body_value())]
+        if rng.random() < 0.5:
+            pair.reverse()
+        for key, v in pair:
+            node[key] = v
+            out.append((path, v, None))
+        plan.both_planted += 1
+
+    if mode in ("mt_both", "mt_and_schema_both", "mt_both_examples"):
+        plant_both(mt)
+        schema = {}
+    if mode in ("schema_both", "mt_and_schema_both"):
+        schema = {}
+        plant_both(schema)
+    if mode == "mt_both_examples":
+        mt[esf] = {}
+        for i in range(plan.cnt((1, 2))):
+            v = plan.body_value()
+            mt[esf][f"e{i}"] = {"value": v}
+            out.append(((), v, None))
+        if rng.random() < 0.5:
+            schema = {"x-examples": []}
+            for _ in range(plan.cnt((1, 2))):
+                v = plan.body_value()
+                schema["x-examples"].append(v)
+                out.append(((), v, None))
+    if mode == "props_both":
+        props = {}
+        for nm in rng.sample(["a", "b", "c"], rng.choice([1, 2])):
+            props[nm] = {"type": "string"}
+            plant_both(props[nm], (nm,), scalar=True)
+        if rng.random() < 0.5:  # one level deeper
+            inner = {"type": "string"}
+            plant_both(inner, ("o", "inner"), scalar=True)
+            props["o"] = {"type": "object", "properties": {"inner": inner}}
+        props["req"] = {"type": "integer", "minimum": 7, "maximum": 9}
+        schema = {"type": "object", "properties": props, "required": ["req"]}
+    if mode == "branch_both":
+        branches = []
+        for _ in range(plan.cnt((1, 2))):
+            b = {}
+            plant_both(b)
+            branches.append(b)
+        schema = {rng.choice(["anyOf", "oneOf"]): branches}
+        if rng.random() < 0.4:
+            plant_both(schema)
     if mode in ("mt_example", "mixed"):
         v = plan.body_value()
         mt[ef] = v
@@ -1025,8 +1217,9 @@ def place_body_examples(plan, rng, version, allow_findings):
     return mt, out, refs
 
 
-def gen_document(rng, version, n_ops, allow_findings):
+def gen_document(rng, version, n_ops, allow_findings, focus_both=False):
     plan = Plan(rng)
+    plan.focus_both = focus_both
     paths, ops, refs = {}, [], {}
     schemas, param_refs = {}, {}
     for i in range(n_ops):
@@ -1176,6 +1369,7 @@ def gen_document(rng, version, n_ops, allow_findings):
             raw["parameters"] = param_refs
     for o in ops:
         o["twin_pairs_in_document"] = plan.twins_planted
+        o["both_keyword_nodes_in_document"] = plan.both_planted
     return raw, ops
 
 
@@ -1430,20 +1624,26 @@ def stage_oracle(chk, n_docs):
     rng = chk.rng
     corpus = [json.loads(p.read_text()) for p in sorted((core.VERIF / "corpus" / "C17").glob("doc_*.json"))]
     docs = [(c["raw"], c["ops"]) for c in corpus]
+    # first (never cut by the time cap): Swagger 2.0 documents whose parameters / body parameter / body schema / branches / properties
+    # carry BOTH x-example and example with different values (and x-examples next to them)
+    n_focus = 4 if chk.tier == "quick" else 40
+    for i in range(n_focus):
+        docs.insert(i, gen_document(rng, 2, rng.choice([3, 4, 5]), allow_findings=False, focus_both=True))
     for i in range(n_docs):
         version = 3 if rng.random() < 0.75 else 2
         docs.append(gen_document(rng, version, rng.choice([3, 5, 8]), allow_findings=(i % 3 == 2)))
     classify_by_model(chk, docs)
-    n_ops = n_expect = n_fail = n_done = n_twins = 0
+    n_ops = n_expect = n_fail = n_done = n_twins = n_both = 0
     # a broken proof / correspondence multiplies the search by 10, but the whole check must stay under ~4 minutes:
     # stop at the deadline, or as soon as a handful of concrete failing inputs outside the listed regions is in hand
     deadline = chk.t0 + 200 if chk.broken else None
     for raw, ops in docs:
-        if deadline is not None and (time.time() > deadline or len(chk.failures) >= 8):
+        if deadline is not None and ((n_done >= n_focus and time.time() > deadline) or len(chk.failures) >= 8):
             chk.notes.append(f"search stopped after {n_done} of {len(docs)} documents (time cap / enough failing inputs)")
             break
         n_done += 1
         n_twins += ops[0].get("twin_pairs_in_document", 0) if ops else 0
+        n_both += ops[0].get("both_keyword_nodes_in_document", 0) if ops else 0
         try:
             fails = check_document(chk, raw, ops)
         except Exception as exc:  # noqa: BLE001
@@ -1460,6 +1660,7 @@ def stage_oracle(chk, n_docs):
         "operations": n_ops,
         "planted_examples": n_expect,
         "slots_with_python_equal_twins": n_twins,
+        "openapi2_nodes_with_both_x_example_and_example": n_both,
         "failures_incl_known_regions": n_fail,
     }
 
@@ -1750,7 +1951,7 @@ def run(chk: core.Check):
     chk.trusted = [
         "Coq 8.16.1 kernel, vm_compute (model evaluation, witness lemmas); no axioms",
         "hand-written model theories/C17/Model_C17.v of produce_combinations, _produce_parameter_combinations, _expand_subschemas, "
-        "extract_inner_examples, extract_from_schema, get_parameters_strategy(exclude)/get_parameters_value, add_examples and the mark table of run_test",
+        "extract_inner_examples, extract_from_schema, the per-node part of extract_top_level (node_values), get_parameters_strategy(exclude)/get_parameters_value, add_examples and the mark table of run_test",
         "correspondence harness harness/props/c17.py (encoders, Coq output parser, canonical JSON, generators, stubs for Hypothesis strategies)",
         "oracle: harness/loopback.py recording server, harness/engine_util.py, urllib.parse / json as the reference decoders",
         "case assembly (Model_C17 section 7): the heap model of dict objects (address = identity, deepclone = allocation, a dict display = "
@@ -1799,12 +2000,18 @@ def run(chk: core.Check):
         "unsendable-header documents (OpenAPI 3.0 75% / 2.0): per operation a header with 2-4 examples of which the first / middle / last / two / all but the last / none "
         "cannot be sent (LF, CR, CRLF, obs-fold, Cyrillic, euro sign, CJK, leading blank or tab; 6% grey values: trailing blank, leading NBSP), 40% a second header with 1-5 examples, "
         "1-3 of query / path / cookie parameters with 1-5 examples (or a required fill-in), 50% 1-6 body examples, so that the round-robin pairs valid and invalid cases in all ways; "
-        "non-trivial = the operation has a case without unsendable header after a case with one"
+        "non-trivial = the operation has a case without unsendable header after a case with one; "
+        "whole nodes (correspondence_nodes): 70% Swagger 2.0 query / header parameter objects and body parameter objects with schema, 30% OpenAPI 3.0 parameters / media types, "
+        "single examples under one keyword or (50% of the 2.0 nodes) under BOTH x-example and example with different values, on the node, its schema and anyOf/oneOf/allOf branches, "
+        "named examples maps and schema-level lists; non-trivial = >=2 values extracted; "
+        "documents: 30% of the Swagger 2.0 slots (75% in the 4 / 40 focused 2.0 documents that run first) carry both keywords on one node "
+        "(parameter, body parameter, body schema, branch, property, nested property), optionally next to x-examples; every value is a declared example"
     )
     chk.proofs(["Common", "C17"])
     mult = 1 if quick else 8
     stage_combinations(chk, 500 * mult)
     stage_fragments(chk, 400 * mult)
+    stage_nodes(chk, 150 * mult)
     stage_lookup(chk, 80 * mult)
     stage_merge(chk, 120 * mult)
     stage_add_examples(chk, 40 * mult)
@@ -1815,7 +2022,7 @@ def run(chk: core.Check):
     stage_assembly(chk, 40 * mult)
     H.stage_oracle_headers(chk, (5 if quick else 80) * (10 if chk.broken else 1))
     stage_oracle_styles(chk, (8 if quick else 100) * (10 if chk.broken else 1))
-    n_docs = (32 if quick else 400) * (10 if chk.broken else 1)
+    n_docs = (28 if quick else 400) * (10 if chk.broken else 1)  # + 4 (quick) / 40 focused 2.0 both-keyword documents in stage_oracle
     stage_oracle(chk, n_docs)
     for f in chk.findings:
         chk.known(f, witness_fails(f["witness"]))
